@@ -14,6 +14,13 @@ def hx(b):
     return b.hex() if b else "-"
 
 
+def run_lines_e(exe, args, lines, **kw):
+    """run_lines that maps no input lines to no output lines"""
+    if not lines:
+        return 0, [], ""
+    return run_lines(exe, args, lines, **kw)
+
+
 def run(ctx):
     quick = ctx.quick()
     st = family_setup(ctx, PROPS, n_random=6 if quick else 40, tl2_random=False)
@@ -60,7 +67,7 @@ def run(ctx):
                         continue
                     enc_lines.append(f"enc 0 {tid} {name} {boxed} | {vtext(v)}")
                     enc_meta.append((tid, boxed))
-        rc, enc_out, err = run_lines(st.ref, margs, enc_lines)
+        rc, enc_out, err = run_lines_e(st.ref, margs, enc_lines)
         if rc != 0 or len(enc_out) != len(enc_lines):
             with lock:
                 unit_errors.append((u.name, f"model driver failed (enc): rc={rc} {err[-300:]}"))
@@ -112,7 +119,7 @@ def run(ctx):
                 ml.append(f"hist {tid} {san} {rfuel} " + " ".join(steps))
                 kinds.append(ks)
         go = run_lines_resilient(u.gen.exe, [], gl, timeout=900, max_restarts=20)
-        rc, mo, err = run_lines(st.ref, margs, ml, timeout=900)
+        rc, mo, err = run_lines_e(st.ref, margs, ml, timeout=900)
         if rc != 0 or len(mo) != len(ml) or len(go) != len(gl):
             with lock:
                 unit_errors.append((u.name, f"driver failed: model rc={rc} lines {len(mo)}/{len(ml)} go lines {len(go)}/{len(gl)} {err[-300:]}"))
